@@ -31,7 +31,8 @@ Garbage == [cp |-> -2, comb |-> <<>>, w |-> 1, fg |-> DefCol, bg |-> DefCol, at 
 
 NoQuirks == [ffclear |-> FALSE, sgrfont |-> FALSE]
 
-\* cs: "utf8", or "sb" (single-byte set; sbmap[b-127] is the code point of byte b, -1 undefined)
+\* cs: "utf8", or "mb": a legacy single- or multi-byte set; sbmap is then the set of <<byte sequence, code point>>
+\* pairs of the characters in use (supplied by the trace's Config from an independent encoder)
 NewTerm(W, H, cs, sbmap, wide, zero, q) ==
     [W |-> W, H |-> H, g |-> [i \in 1..(W*H) |-> Garbage], cx |-> 0, cy |-> 0, pend |-> FALSE, lp |-> 0,
      fg |-> DefCol, bg |-> DefCol, at |-> 0, us |-> 0, uc |-> DefCol, link |-> <<>>,
@@ -344,6 +345,16 @@ Utf8Ok(cp, len) ==
     /\ cp <= 1114111 /\ ~(cp >= 55296 /\ cp <= 57343)
     /\ (len = 2 => cp >= 128) /\ (len = 3 => cp >= 2048) /\ (len = 4 => cp >= 65536)
 
+IsPrefixOf(a, b) == Len(a) <= Len(b) /\ SubSeq(b, 1, Len(a)) = a
+
+\* legacy character sets: collect bytes until they spell a character of the table
+MbStep(t, b) ==
+    LET nb == Append(IF t.lx = "mb" THEN t.buf ELSE <<>>, b)
+        hit == {p \in t.sbmap : p[1] = nb}
+    IN IF hit # {} THEN PrintCp([t EXCEPT !.lx = "gnd", !.buf = <<>>], (CHOOSE p \in hit : TRUE)[2])
+       ELSE IF \E p \in t.sbmap : IsPrefixOf(nb, p[1]) THEN [t EXCEPT !.lx = "mb", !.buf = nb]
+       ELSE Bad(t, <<"undecodable", nb>>)
+
 Step(t, b) ==
     CASE t.lx = "gnd" ->
            IF b = ESC THEN [t EXCEPT !.lx = "esc", !.buf = <<>>]
@@ -355,10 +366,9 @@ Step(t, b) ==
                   ELSE IF b >= 224 /\ b <= 239 THEN [t EXCEPT !.lx = "u8", !.need = 2, !.acc = b - 224, !.buf = <<3>>]
                   ELSE IF b >= 240 /\ b <= 244 THEN [t EXCEPT !.lx = "u8", !.need = 3, !.acc = b - 240, !.buf = <<4>>]
                   ELSE [t EXCEPT !.bad = @ \cup {"utf8"}]
-           ELSE \* single-byte character set
-                IF b < 160 THEN [t EXCEPT !.bad = @ \cup {<<"c1", b>>}]
-                ELSE IF t.sbmap[b - 127] < 0 THEN [t EXCEPT !.bad = @ \cup {<<"undefined_byte", b>>}]
-                ELSE PrintCp(t, t.sbmap[b - 127])
+           ELSE IF t.font # 0 THEN PrintCp(t, b)      \* alternate font (CP437-style ACS): the byte is the glyph
+           ELSE MbStep(t, b)
+      [] t.lx = "mb" -> IF b < 128 /\ b < 64 THEN Bad(t, <<"undecodable", Append(t.buf, b)>>) ELSE MbStep(t, b)
       [] t.lx = "u8" ->
            IF b < 128 \/ b > 191 THEN Bad(t, "utf8")
            ELSE LET acc == t.acc * 64 + (b - 128) IN
